@@ -4,6 +4,11 @@ manifest is valid at every commit)."""
 import json, os, sys
 
 CHECKS = {
+ "C01": ("exploration",
+         "bounded-exhaustive enumeration of control code points x encodings x carriers x sinks x widths against a terminal-safety oracle",
+         "8 structurally distinct control characters (quick) / all 64 C0, DEL and C1 code points except newline (thorough), each followed by a tell-tale SGR parameter servitor never emits, in 7 encodings inside 32 markup carriers of the four media types, in every string field of actors, posts, activities and their nested links, authors and collections (as string, list, object, key, entity), at 13 positions of raw HTTP responses quoted in error items, and in UI frames (normal, selection, opening, problem, command footers); sinks Markup.Render, String, Preview, Name at widths 1,2,7,80,81: after removing exactly the SGR sequences servitor generates no control character other than newline remains.",
+         "Trusted: lib/oracle tokenizer and palette (the four configured colours); Env-B peer for raw responses; combinations of two atoms in one document are not enumerated.",
+         "DESIGN.md §3 C01"),
  "C06": ("exploration",
          "bounded-exhaustive enumeration of JSON shape deviations, markup forests and nesting chains through pub.New and every Tangible method, in worker processes with a crash/hang watchdog",
          "21 baseline documents x every field x 30 values (single deviations) and field pairs (8 values on 5 baselines quick; 30 values on all baselines thorough), top-level non-objects, HTML forests up to 3/4 nodes and gemtext/Markdown/plaintext sequences as post bodies, 11 nesting families x inner content at 13 depths up to 120 (quick) / every depth 1..120 at 4 widths (thorough): no panic (also none in a background goroutine), no nil item, every case finishes within the horizon.",
